@@ -96,7 +96,19 @@ pub fn check_history(ctx: &mut Ctx, start: &Pos, src: &mut MoveSource, max_plies
             return Ok(());
         }
     };
-    let mut g = Game::new_with_board(b0);
+    let mut g = if *start == Pos::startpos() {
+        Game::new()
+    } else if fp(start) % 2 == 0 {
+        Game::new_with_board(b0)
+    } else {
+        match Game::from_str(&start.fen()) {
+            Ok(g) => g,
+            Err(_) => {
+                ctx.reject();
+                return Ok(());
+            }
+        }
+    };
     let mut m = GameModel::new(start);
     let mut moves: Vec<Mv> = vec![];
     let mut counts: BTreeMap<u64, u32> = BTreeMap::new();
